@@ -387,7 +387,15 @@ func observe(d *store.Dir, m model, fail func(kind, format string, a ...any)) st
 // deletion, every single case flip, extensions by one byte (front and back), another
 // user's password must fail; the schema-inherent equivalents for scrypt must succeed.
 func nearMiss() {
-	bases := []string{"secret", "Pa:ss\nwd", "\xff\xfe\x00z", strings.Repeat("0123456789", 7)}
+	mk := func(n int) string {
+		b := make([]byte, n)
+		for i := range b {
+			b[i] = byte('a' + (i*7+i/13)%26)
+		}
+		return string(b)
+	}
+	// (lengths around every plausible internal buffer / block boundary)
+	bases := []string{"secret", "Pa:ss\nwd", "\xff\xfe\x00z", strings.Repeat("0123456789", 7), mk(130), mk(300), mk(1100)}
 	if ev.Thorough() {
 		b := make([]byte, 5000)
 		for i := range b {
@@ -426,7 +434,13 @@ func nearMiss() {
 			stride = 97 // long password: every length is still covered near both ends
 		}
 		for n := 0; n < len(b); n++ {
-			if stride == 1 || n < 70 || n > len(b)-70 || n%stride == 0 {
+			nearBoundary := false
+			for _, bd := range []int{64, 72, 128, 255, 256, 257, 512, 1024, 2048, 4096} {
+				if n >= bd-2 && n <= bd+2 {
+					nearBoundary = true
+				}
+			}
+			if stride == 1 || n < 70 || n > len(b)-70 || n%stride == 0 || nearBoundary {
 				cand[b[:n]] = fmt.Sprintf("prefix[%d]", n)
 				cand[b[:n]+b[n+1:]] = fmt.Sprintf("delete[%d]", n)
 				cand[b[n:]] = fmt.Sprintf("suffix[%d]", n)
@@ -446,6 +460,14 @@ func nearMiss() {
 		cand[strings.TrimSpace(b)] = "trimspace"
 		cand[other] = "other user's password"
 		cand[b+b] = "doubled"
+		// extensions that keep a long common prefix (a key derivation that silently cuts the
+		// password somewhere would accept them)
+		for _, bd := range []int{8, 16, 32, 64, 72, 128, 256, 512, 1024} {
+			if len(b) > bd {
+				cand[b[:bd]] = fmt.Sprintf("cut[%d]", bd)
+				cand[b[:bd]+"-other-tail"] = fmt.Sprintf("same-first-%d-bytes", bd)
+			}
+		}
 		// schema-inherent equivalents (scrypt only)
 		equiv := map[string]string{b: "exact"}
 		if verifx.IsScryptSet(c.set) {
